@@ -31,6 +31,11 @@ theorem exactly_ok {u l : Nat} (h : exactly u l = .ok ()) : u = l := by
 
 theorem exactly_self (u : Nat) : exactly u u = .ok () := by simp [exactly]
 
+theorem named_ok {b : Bool} {u : Unit} (h : named b = .ok u) : b = true := by
+  cases b <;> simp [named] at h ⊢
+
+theorem named_true : named true = .ok () := rfl
+
 def lensSize (lens : List Nat) : Nat := (lens.map (· + 6)).sum
 
 @[simp] theorem lensSize_nil : lensSize [] = 0 := rfl
@@ -214,6 +219,7 @@ theorem readField_pos {avail : Nat} {cfg : Cfg} {i : Nat} {f : Field} {p : Nat} 
     res.1 = p + f.size := by
   simp only [readField] at h
   obtain ⟨q, hq, h⟩ := bind_ok.mp h
+  obtain ⟨_, _, h⟩ := bind_ok.mp h
   have h1 := need_ok hq
   split at h
   · obtain ⟨q2, hq2, h⟩ := bind_ok.mp h
@@ -339,6 +345,7 @@ theorem readMethod_pos {avail : Nat} {cfg : Cfg} {i : Nat} {mt : Method} {p : Na
     res.1 = p + mt.size := by
   simp only [readMethod] at h
   obtain ⟨q, hq, h⟩ := bind_ok.mp h
+  obtain ⟨_, _, h⟩ := bind_ok.mp h
   have h1 := need_ok hq
   split at h
   · obtain ⟨q2, hq2, h⟩ := bind_ok.mp h
@@ -399,7 +406,8 @@ theorem methods_sum (ms : List Method) :
   | nil => rfl
   | cons f fs ih => simp [methodsSize, Method.size] at ih ⊢; omega
 
-/-- the cursor ends exactly at the end of the class file, whatever the configuration -/
+/-- the cursor ends exactly at the end of the class file, whatever the configuration — also when the fields are skipped
+or the methods are not read inside `with_pos` (the position handed back is the one remembered after the class attributes) -/
 theorem readWith_pos {cfg : Cfg} {c : ClassFrame} {avail : Nat} {res : Nat × List Ev}
     (hx : c.attrs.all cattrExact = true) (h : readWith cfg c avail = .ok res) : res.1 = c.size := by
   simp only [readWith] at h
@@ -428,9 +436,7 @@ theorem readWith_pos {cfg : Cfg} {c : ClassFrame} {avail : Nat} {res : Nat × Li
       obtain ⟨q1, _, h⟩ := bind_ok.mp h
       obtain ⟨r2, _, h⟩ := bind_ok.mp h
       obtain ⟨q2, fevs⟩ := r2
-      obtain ⟨q3, _, h⟩ := bind_ok.mp h
-      obtain ⟨r3, _, h⟩ := bind_ok.mp h
-      obtain ⟨q4, mevs⟩ := r3
+      obtain ⟨mevs, _, h⟩ := bind_ok.mp h
       simp [pure, Except.pure] at h; subst h
       have a5 := need_ok hp5
       have a6 := readClassAttrs_pos _ _ _ _ hx hr'
